@@ -172,22 +172,18 @@ theorem C05_indices_fresh_distinct (c : Cfg) (pop : List Agent) (hne : pop ≠ [
   omega
 
 /-- **Distinct forever.**  Start from any non-empty population with pairwise distinct indices and
-    run any number of generations — in each one the agents may be changed arbitrarily as long as
-    their indices are kept (evaluation, training, mutation), then `select` runs with any valid
-    ranking and any draws.  The indices stay pairwise distinct, the population never becomes
-    empty, and from the first generation on it has exactly `population_size` members. -/
+    call `select` any number of times with one selector.  Between calls the agents may be changed
+    arbitrarily (evaluation, training, mutation) and the next call may even be given a re-indexed
+    or completely unrelated non-empty population; each call runs with any valid ranking and any
+    draws.  After every call the indices are pairwise distinct, the population is never empty and
+    has exactly `population_size` members.  (Nothing carries over from earlier calls: the result
+    of `select` is a function of the population it is given.) -/
 theorem C05_indices_distinct_forever (c : Cfg) (hv : c.valid) (p q : List Agent)
     (hreach : Reach c p q) (hne : p ≠ []) (hnd : (p.map (·.index)).Nodup) :
     (q.map (·.index)).Nodup ∧ q ≠ [] ∧ (q = p ∨ q.length = c.popSize) := by
   induction hreach with
   | refl => exact ⟨hnd, hne, Or.inl rfl⟩
-  | @step q q' rank draws _ hidx hrank ih =>
-    obtain ⟨_, hqne, _⟩ := ih
-    have hq'ne : q' ≠ [] := by
-      intro e; apply hqne
-      have := congrArg List.length hidx
-      simp [e] at this
-      exact List.length_eq_zero_iff.mp this.symm
+  | @step q q' rank draws _ hq'ne hrank _ =>
     have hlen := newPop_length c hv rank q' draws
     refine ⟨(C05_indices_fresh_distinct c q' hq'ne rank hrank draws).1, ?_, Or.inr hlen⟩
     intro e
@@ -275,7 +271,18 @@ example : (newPop { exCfg with elitism := false } (stableRank (keys 2 exPop)) ex
     for exact means needs `Evaluated` -/
 example : elitePos (stableRank (keys 2 (exPop ++ [{ index := 9, fitness := [] }]))) = 4 := by
   decide +kernel
+/-- one selector, two unrelated populations: after serving `exPop` (indices 0,1,2,7 → children
+    8,9,10) it is handed a population with indices 4..7 whose best agent has index 7; the children
+    are numbered from that population's own maximum: 7 (elite), 8, 9, 10 -/
+def exPopB : List Agent :=
+  [ { index := 4, fitness := [0] }, { index := 5, fitness := [1] },
+    { index := 6, fitness := [1, 0] }, { index := 7, fitness := [2] } ]
+example : (newPop exCfg (stableRank (keys 2 exPopB)) exPopB exDraws).map (·.index) = [7, 8, 9, 10] := by
+  decide +kernel
+example : Reach exCfg exPop (newPop exCfg (stableRank (keys 2 exPopB)) exPopB exDraws) :=
+  Reach.step (Reach.step (Reach.refl _) (by decide) (C05_ranking_exists 2 exPop) (draws := exDraws))
+    (by decide) (C05_ranking_exists 2 exPopB)
 example : Reach exCfg exPop (newPop exCfg (stableRank (keys 2 exPop)) exPop exDraws) :=
-  Reach.step (Reach.refl _) rfl (C05_ranking_exists 2 exPop)
+  Reach.step (Reach.refl _) (by decide) (C05_ranking_exists 2 exPop)
 
 end Tournament
